@@ -592,6 +592,11 @@ def getattr_(I, obj, name, default=MISSING):
         if obj.iface is not None:
             return obj.iface.getattr(I, obj, name, default)
         k = I.kind(obj)
+        if name == "__class__":
+            m = {"str": "str", "int": "int", "bool": "bool", "none": "NoneType", "bytes": "bytes", "real": "float"}
+            if k in m:
+                return I.world.builtins[m[k]]
+            return UnknownClass(obj)
         if k == "str":
             return str_method(I, obj, name)
         if k == "bytes":
@@ -638,6 +643,17 @@ def getattr_(I, obj, name, default=MISSING):
             return I.world.builtins[type(obj).__name__]
         return missing()
     return missing()
+
+
+class UnknownClass:
+    """type(x) of a symbolic object reference whose class is not known."""
+    def __init__(self, sym):
+        self.sym = sym
+
+    def pyvc_getattr(self, I, name):
+        if name in ("__name__", "__qualname__"):
+            return Sym(VStr(z3.Const("classname!%d" % self.sym.term.get_id(), z3.StringSort())))
+        return MISSING
 
 
 def bind_class_attr(I, ca, obj, cls):
